@@ -198,7 +198,7 @@ def slim_term(t):
 
 def describe_equiv(trace, matched):
     o = trace["steps"][0]["obs"]
-    msg = f"bare and explicit forms behave differently ({o['verdict']}; bare: {o['bare_err'] or 'parsed'}, explicit: {o['expl_err'] or 'parsed'})\n--- bare ---\n{trace['bare']}--- explicit ---\n{trace['explicit']}"
+    msg = f"bare and explicit forms behave differently in mode {trace.get('mode', 'exec')} ({o['verdict']}; bare: {o['bare_err'] or 'parsed'}, explicit: {o['expl_err'] or 'parsed'})\n--- bare ---\n{trace['bare']}--- explicit ---\n{trace['explicit']}"
     if o.get("bare_run"):
         msg += f"--- bare run ---\n{json.dumps(o['bare_run'])[:600]}\n--- explicit run ---\n{json.dumps(o['expl_run'])[:600]}"
     return msg
@@ -250,6 +250,13 @@ def run(tier, seed, replay=None):
         shapes = universe(tier, rng, core.streams(tier, seed))
         texts = None
     scns = [{"shape": s} for s in shapes]
+    # one-line shapes (no block, no neighbouring lines) are also judged the way the interactive prompt
+    # compiles them: mode "single"
+    def one_line(s):
+        p = s["pos"]
+        return not p["blocks"] and not p["before"] and not p["after"] and not p["stmt_before"] and not p["stmt_after"]
+
+    scns += [{"shape": s, "mode": "single"} for s in shapes if one_line(s)]
     out = pool.run("cmdwrap", scns, hooks=True, timeout=3000)
     bad_workers = [t for t in out if "steps" not in t]
     if bad_workers:
